@@ -9,6 +9,7 @@ CONSTANTS
     CapN = 0
     Cache = 4096
     Compress = FALSE
+    ExtK = 0
     CapProbe = FALSE
     Debug = FALSE
     HookMode = "ok"
